@@ -191,6 +191,18 @@ def run_set(s, stage_dir, tier):
     t0 = time.time()
     if s["mode"] == "N":
         return run_native(s, stage_dir, tier, res)
+    if s["mode"] == "S":
+        import static_facts
+        try:
+            facts = getattr(static_facts, s["static"])(stage_dir)
+        except Exception as e:
+            res["undecided"] = "static fact extraction broke: %r" % (e,)
+            return res
+        for nm, ok, detail in facts:
+            res["obligations"].append({"name": "%s.%s" % (s["static"], nm), "desc": "static fact: " + detail, "status": "SUCCESS" if ok else "FAILURE",
+                                       "function": s["static"], "file": "yaep.c", "line": None, "key": "static|" + nm, "src": detail})
+        res["cmds"].append("python3 engine/static_facts.py:%s over <stage>/plain" % s["static"])
+        return res
     gb, errs, cmds, bt, params = build_set(s, stage_dir, tier, wdir)
     res["build_time_s"] = bt
     res["params"] = params
@@ -217,6 +229,8 @@ def run_set(s, stage_dir, tier):
             return res
         s = dict(s)
         uw = ["--unwindset", ",".join("%s:%d" % (n, k) for n in names), "--unwinding-assertions"]
+        if not s.get("dfcc", s["mode"] in ("U", "L")):
+            uw = ["--unwind", str(s.get("rec_unwind", 2))] + uw        # plain harness: the global bound covers recursion, loops keep their own bound
         s["cbmc"] = list(s.get("cbmc", [])) + uw
         s["cbmc_thorough"] = list(s.get("cbmc_thorough", s.get("cbmc", []))) + uw if "cbmc_thorough" in s else s["cbmc"]
     if s.get("split"):
@@ -566,7 +580,7 @@ def main(argv):
             ok = sum(1 for o in r["obligations"] if o["status"] == "SUCCESS")
             ent = {"set": s["id"], "mode": s["mode"], "what": s.get("what", ""), "functions": s.get("functions", []), "obligations": n, "discharged": ok,
                    "solver_time_s": round(r.get("solver_time_s", 0), 2), "build_time_s": round(r.get("build_time_s", 0), 2),
-                   "backend": s.get("backend", "cbmc 6.11 symex + SAT (MiniSat/CaDiCaL default)") if s["mode"] != "N" else "native clang ASan/UBSan",
+                   "backend": ("cbmc 6.11 symex + SAT (MiniSat default)" if s["mode"] in ("U", "L", "B") else "native clang ASan/UBSan" if s["mode"] == "N" else "python syntactic check"),
                    "params": r.get("params", {}), "cmds": r.get("cmds", []), "undecided": r.get("undecided")}
             if s["mode"] in ("U", "L"):
                 proof_ob += n
